@@ -122,7 +122,7 @@ Lemma mul_qty_qty_nf (L Rr : QBase am) (R : QFull am) x y :
   derived_nf (a_mul am) R (u_scale L (q_unit L x)) (u_scale Rr (q_unit Rr y)) (q_amount L x) (q_amount Rr y).
 Proof.
   unfold tmpl_Mul_Qty_Qty, derived_nf. destruct (a_mul am _ _) as [sc|]; cbn [bind]; [|reflexivity].
-  destruct (HasRefUnit_unit_from_scale R sc); [reflexivity|]. rewrite bind_assoc. reflexivity.
+  destruct (HasRefUnit_unit_from_scale R sc); [reflexivity|]. rewrite ?bind_assoc. reflexivity.
 Qed.
 
 Lemma mul_qty_self_nf (L : QBase am) (R : QFull am) x y :
@@ -130,7 +130,7 @@ Lemma mul_qty_self_nf (L : QBase am) (R : QFull am) x y :
   derived_nf (a_mul am) R (u_scale L (q_unit L x)) (u_scale L (q_unit L y)) (q_amount L x) (q_amount L y).
 Proof.
   unfold tmpl_Mul_Qty_Self_PRef, derived_nf. destruct (a_mul am _ _) as [sc|]; cbn [bind]; [|reflexivity].
-  destruct (HasRefUnit_unit_from_scale R sc); [reflexivity|]. rewrite bind_assoc. reflexivity.
+  destruct (HasRefUnit_unit_from_scale R sc); [reflexivity|]. rewrite ?bind_assoc. reflexivity.
 Qed.
 
 Lemma div_qty_qty_nf (L Rr : QBase am) (R : QFull am) x y :
@@ -138,7 +138,7 @@ Lemma div_qty_qty_nf (L Rr : QBase am) (R : QFull am) x y :
   derived_nf (a_div am) R (u_scale L (q_unit L x)) (u_scale Rr (q_unit Rr y)) (q_amount L x) (q_amount Rr y).
 Proof.
   unfold tmpl_Div_Qty_Qty, derived_nf. destruct (a_div am _ _) as [sc|]; cbn [bind]; [|reflexivity].
-  destruct (HasRefUnit_unit_from_scale R sc); [reflexivity|]. rewrite bind_assoc. reflexivity.
+  destruct (HasRefUnit_unit_from_scale R sc); [reflexivity|]. rewrite ?bind_assoc. reflexivity.
 Qed.
 
 (** a bare number divided by a quantity: the number is the dimensionless
@@ -149,7 +149,7 @@ Lemma div_amnt_qty_nf (Rr : QBase am) (R : QFull am) (x : am) y :
 Proof.
   unfold tmpl_Div_Amnt_Qty, derived_nf, LinearScaledUnitOne_scale, QuantityAmountT_amount.
   destruct (a_div am _ _) as [sc|]; cbn [bind]; [|reflexivity].
-  destruct (HasRefUnit_unit_from_scale R sc); [reflexivity|]. rewrite bind_assoc. reflexivity.
+  destruct (HasRefUnit_unit_from_scale R sc); [reflexivity|]. rewrite ?bind_assoc. reflexivity.
 Qed.
 
 (** natural unit: if a unit of the result quantity has the combined scale, the
